@@ -105,8 +105,17 @@ var meta = map[string]*propMeta{
 		Real: commonReal, Simulated: []string{"destination io.Writer (fault-injecting)", "map iteration order inside writeMap (seeded)", "logger (no-op)"},
 		EvalsAre: "fault injections",
 	},
+	"C17": {
+		Level: "exploration", Race: true, QuickRuns: 6000, ThoroughRuns: 150000,
+		Rule: "one run = one pool (NewSerializerPool / NewEncoderPool / NewDecoderPool, size 0..8) and 1..64 client tasks with drawn Get/use/Return scripts (a task may hold up to 4 objects), executed under the seeded cooperative scheduler (random / round-robin / PCT, mean quantum 1..100 library statements, preemption inside Get and Return), optionally with stalled and abandoning holders; followed by a drain of size+2 Gets. Checked: ownership table after every event, fake-clock block detection, caller's own statements per call, porcupine on the recorded history against a nondeterministic pool model, race detector. A run is non-trivial when at least one context switch or scheduler fault happened; distinct = distinct fingerprints of the scheduling + event log.",
+		Assumptions: []string{"objects are identified by pointer and kept reachable until the run ends", "a history on which porcupine times out (8 s) is inconclusive: counted, never reported, never a pass",
+			"preemption is at statement granularity (instrumented copy); intra-statement conflicts are the race detector's job"},
+		Real: append([]string{"pool.go and the factories (real encoders / decoders / serializers)", "Go race detector (made schedule-deterministic by the RaceDisable bracket)", "porcupine v1.3.0"}, commonReal...),
+		Simulated: []string{"caller goroutine scheduling (one task unparked at a time, choice stream decides)", "fake clock (testing/synctest) for block detection", "logger (no-op)"},
+		EvalsAre: "simulated runs",
+	},
 	"C14": {
-		Level: "exploration", QuickRuns: 2400, ThoroughRuns: 60000, MemLimitKB: 6 << 20,
+		Level: "exploration", QuickRuns: 8000, ThoroughRuns: 60000, MemLimitKB: 6 << 20,
 		Rule: "one run = a valid stream of 1..4 seeded zoo values produced by the real encoder x one of 7 documented decode entry points x a drawn type map (complete / empty / partial / shuffled); the transport then delivers (a) the undamaged stream, (b) EVERY prefix of it ended by EOF and by a non-EOF reset (all cut offsets; strided only above 1200/6000 bytes), (c) 24 (quick) / 64 (thorough) drawn structure-aware damage plans of 1..3 faults (flip, set-to-tag, drop, dup, swap, insert, noise) biased to the offsets where the encoder started a write. evaluations = damaged decodes. A run is non-trivial when a fault changed the delivered stream; distinct = distinct (entry point, type-map kind, valid stream hash).",
 		Assumptions: []string{"time is measured in executed library statements (instrumented copy), memory with runtime/metrics /gc/heap/allocs:bytes; budgets are 10x the largest ratio measured on 400 undamaged streams in the same process, clamped to fixed ceilings",
 			"workers run under ulimit -v 6 GiB and a wall-clock watchdog; a worker death is attributed to the run in flight and must reproduce from (seed, run) before it is reported"},
@@ -249,7 +258,7 @@ func (l *limitedWriter) Write(p []byte) (int, error) {
 // classify turns a worker death into a violation class ("" if the process ended normally).
 func classify(m *propMeta, pr *procResult) (class, key string) {
 	switch {
-	case pr.TimedOut:
+	case pr.TimedOut || pr.ExitCode == 5:
 		return strings.ToLower(prop) + "/hang", "watchdog"
 	case pr.ExitCode == 66 || strings.Contains(pr.Stderr, "WARNING: DATA RACE"):
 		return strings.ToLower(prop) + "/race", raceKey(pr.Stderr)
@@ -599,20 +608,25 @@ func main() {
 			viol.Trace = regenTrace(m, viol)
 		}
 		writeJSON(vfile, viol)
-		inProc := !viol.Killed
+		inProc := !viol.Killed && (viol.Extra == nil || viol.Extra["kills"] != "1")
 		var small *Violation
 		if inProc {
 			pr := runWorker(m, workerArgs{Prop: prop, Mode: "shrink", File: vfile, Budget: 3000}, 10*time.Minute)
-			if pr.Res != nil && pr.Res.Violation != nil && pr.Res.Violation.Class == viol.Class {
+			if pr.ExitCode == 3 && pr.Res != nil && pr.Res.Violation != nil && pr.Res.Violation.Class == viol.Class {
 				small = pr.Res.Violation
 			} else {
-				small = viol
+				// the in-process shrinker died on a candidate (or lost the class): one process per candidate
+				small = shrinkOutOfProcess(m, viol, 400)
 			}
 		} else {
 			small = shrinkOutOfProcess(m, viol, 400)
 		}
 		small.Property = prop
-		fpHex := fmt.Sprintf("%016x", small.Fp^uint64(small.Run))
+		h := small.Fp ^ (uint64(small.Run)+1)*0x9e3779b97f4a7c15
+		for _, x := range small.Trace {
+			h = (h ^ x) * 1099511628211
+		}
+		fpHex := fmt.Sprintf("%016x", h)
 		os.MkdirAll(filepath.Join(verifDir, "replays"), 0o755)
 		replayPath = filepath.Join(verifDir, "replays", fmt.Sprintf("%s-%d-%s.json", prop, seed, fpHex[:10]))
 		small.ReplayCmd = fmt.Sprintf("%s/bin/check %s --replay %s", verifDir, prop, replayPath)
